@@ -75,6 +75,20 @@ def partnersLoopBeforeFix (env : Env) (pseudo : Bool) : Nat → List Name → Li
     | some c =>
       partnersLoopBeforeFix env pseudo fuel (rest.erase c) (if order.contains c then order else order ++ [c])
 
+/-- the container-partner loop with the head still waiting in the list while its close relative is looked for
+(`glyphNames = glyphNames[1:]` moved behind the search; kept only to state when the place of that statement
+matters: `Props.C20.partners_head_waiting_same` / `partners_head_waiting_differs`) -/
+def partnersLoopHeadWaiting (env : Env) (pseudo : Bool) : Nat → List Name → List Name → List Name
+  | 0, _, order => order
+  | _ + 1, [], order => order
+  | fuel + 1, g :: rest, order =>
+    match env.closeRelativeFor g pseudo with
+    | none => partnersLoopHeadWaiting env pseudo fuel rest (order ++ [g])
+    | some c =>
+      if (g :: rest).contains c then
+        partnersLoopHeadWaiting env pseudo fuel ((g :: rest).erase c).tail (order ++ [g] ++ [c])
+      else partnersLoopHeadWaiting env pseudo fuel rest (order ++ [g])
+
 /-- sort types that read none of the ordered tables / manual groups -/
 def Basic.tableFree : Basic → Bool
   | .category | .block | .script | .manualGroups => false
@@ -113,6 +127,16 @@ def demoEnv : Env := tableEnv [
   ⟨"parenleft", some 40, "Ps", "Common", "Basic Latin", some "parenright"⟩,
   ⟨"parenright", some 41, "Pe", "Common", "Basic Latin", none⟩,
   ⟨"a.alt", none, "Cn", "Unknown", "No_Block", none⟩]
+
+/-- a typewriter-style design: ONE neutral glyph for U+201C and U+201D, so that it is its own close relative
+(and, through pseudo-unicodes, so is its small-cap variant); ordinary parentheses beside it -/
+def neutralEnv : Env := tableEnv [
+  ⟨"a", some 97, "Ll", "Latin", "Basic Latin", none⟩,
+  ⟨"comma", some 44, "Po", "Common", "Basic Latin", none⟩,
+  ⟨"parenleft", some 40, "Ps", "Common", "Basic Latin", some "parenright"⟩,
+  ⟨"parenright", some 41, "Pe", "Common", "Basic Latin", none⟩,
+  ⟨"quotedblleft", some 8220, "Pi", "Common", "General Punctuation", some "quotedblleft"⟩,
+  ⟨"quotedblleft.sc", none, "Pi", "Common", "General Punctuation", some "quotedblleft.sc"⟩]
 
 end NameSort
 end DefconModel
